@@ -460,9 +460,104 @@ def check_illtyped(case):
     return dict(nt=True, labels=[label], show=common.show(good))
 
 
+@st.composite
+def mutated_type(draw, cls, t):
+    """ The type spec t with exactly one leaf changed (a near miss). Returns
+    None when t is empty. """
+    if not t:
+        return None
+    t = [dict(x) if isinstance(x, dict) else list(x) for x in t]
+    i = draw(st.integers(0, len(t) - 1))
+    x = t[i]
+    if isinstance(x, dict):
+        tag, left, right = xspec.parts(x)
+        choice = draw(st.sampled_from(
+            ["flip"] + (["left"] if left else []) + (["right"] if right
+                                                     else [])))
+        if choice == "flip":
+            t[i] = {"u" if tag == "o" else "o": [left, right]}
+        elif choice == "left":
+            t[i] = {tag: [draw(mutated_type(cls, left)), right]}
+        else:
+            t[i] = {tag: [left, draw(mutated_type(cls, right))]}
+        return t
+    name, z = x
+    if cls == "rigid" and draw(st.booleans()):
+        t[i] = [name, z + draw(st.sampled_from([-1, 1]))]
+    elif cls == "tensor":
+        t[i] = [5 - name, z]                      # 2 <-> 3
+    elif cls == "circuit":
+        t[i] = ["bit" if name == "qubit" else "qubit", z]
+    elif cls in ("zx", "cartesian"):
+        return None
+    else:
+        t[i] = [str(name) + "'", z]
+    return t
+
+
+@st.composite
+def nearmiss_cases(draw, tier):
+    cls = draw(st.sampled_from(["cat", "monoidal", "rigid", "tensor",
+                                "circuit", "biclosed", "biclosed"]))
+    a = draw(gen.diagrams(cls, max_boxes=4, max_width=4, min_boxes=1))
+    cod = specs.spec_cod(a)
+    bad = draw(mutated_type(cls, cod))
+    return {"cls": cls, "a": a, "bad": bad,
+            "side": draw(st.sampled_from(["then", "ctor", "sum"]))}
+
+
+def typed_box(cls, name, dom, cod):
+    """ A box dom -> cod of the class (circuit: a classical/quantum box). """
+    if cls == "circuit":
+        from discopy.quantum.circuit import Box
+        return Box(name, specs.ty(cls, dom), specs.ty(cls, cod))
+    return specs.box(cls, {"k": "box", "name": name, "dom": dom, "cod": cod,
+                           "dag": False})
+
+
+def check_nearmiss(case):
+    """ Compose a diagram with a box whose domain differs from the diagram's
+    codomain in exactly one leaf of one type: must be refused. """
+    cls, a_spec, bad = case["cls"], case["a"], case["bad"]
+    if bad is None:
+        return dict(nt=False, labels=["empty"])
+    cod = specs.spec_cod(a_spec)
+    if specs.skey_ty(bad) == specs.skey_ty(cod):
+        return dict(nt=False, labels=["no-change"])
+    a = specs.build(a_spec)
+    good_box = typed_box(cls, "g", cod, cod)
+    bad_box = typed_box(cls, "g", bad, bad)
+    specs.well_typed(a >> good_box, "a >> g")
+    what = "{} >> box with domain {}".format(common.show(a), bad)
+
+    def refuse(func):
+        common.expect_raises(func, (Exception,),
+                             "C01:ill-typed-request-accepted", what)
+    if case["side"] == "then":
+        refuse(lambda: a >> bad_box)
+        refuse(lambda: bad_box >> a[::-1] if cls != "cartesian" else 1 / 0)
+    elif case["side"] == "ctor" and cls != "cat":
+        m = specs.mod(cls)
+        refuse(lambda: m.Diagram(
+            a.dom, specs.ty(cls, bad), a.boxes + [bad_box],
+            a.offsets + [0]))
+    else:
+        other = specs.ident(cls, bad)
+        refuse(lambda: specs.ident(cls, cod) + other)
+    nested = any(isinstance(x, dict) for x in cod)
+    return dict(nt=True, labels=[cls, case["side"]]
+                + (["nested-slash"] if nested else []), show=what)
+
+
 core.register("C01", [
     Facet("history", programs, check_program, n_quick=1600, shards_quick=8,
           rule=RULE),
+    Facet("nearmiss", nearmiss_cases, check_nearmiss, n_quick=800,
+          shards_quick=4, rule="a generated diagram composed (>>, "
+          "constructor, +) with a value whose type differs from the expected "
+          "one in exactly one leaf (name, winding number, dimension, bit/"
+          "qubit, slash direction, nested side of a slash type): must be "
+          "refused"),
     Facet("illtyped", illtyped_cases, check_illtyped, n_quick=800,
           shards_quick=2, rule="one well-typed generated diagram and one "
           "corrupted constructor request derived from it; non-trivial = the "
